@@ -508,6 +508,14 @@ pub fn build(g: &Gen) -> ctap2::Response {
             let view = refmodel::decode(&kind.schema(), &plan.build(masks[l].1, &[])).unwrap().unwrap();
             kind.build(&view)
         }
+        "getinfo-algs" => {
+            // GetInfo with only the required members and `algorithms` set to the l-th menu value
+            let plan = Plan::new(&get_info_response(), Side::Response);
+            let bit = plan.opt_index("/algorithms");
+            let leaf = plan.leaf_index("/algorithms");
+            let view = refmodel::decode(&get_info_response(), &plan.build(1u64 << bit, &[(leaf, l)])).unwrap().unwrap();
+            ctap2::Response::GetInfo(bind::build_get_info(&view))
+        }
         "getinfo" => {
             let plan = Plan::new(&get_info_response(), Side::Response);
             let view = refmodel::decode(&get_info_response(), &plan.build(if l == 0 { 0 } else { plan.full_mask() }, &[])).unwrap().unwrap();
@@ -526,6 +534,10 @@ fn family_range(f: &'static str) -> Vec<usize> {
         "ga-x5c" => (0..=1024).collect(),
         "cm-count" => (0..4).collect(),
         "getinfo" => vec![0, 1],
+        "getinfo-algs" => {
+            let plan = Plan::new(&get_info_response(), Side::Response);
+            (0..plan.leaves[plan.leaf_index("/algorithms")].menu.len()).collect()
+        }
         f if f.starts_with("seed:") => {
             let k: usize = f[5..].parse().unwrap();
             let plan = Plan::new(&RKINDS[k].schema(), Side::Response);
@@ -535,7 +547,7 @@ fn family_range(f: &'static str) -> Vec<usize> {
     }
 }
 
-pub const FAMILIES: [&str; 23] = ["seed:0", "seed:1", "seed:2", "seed:3", "seed:4", "seed:5", "seed:6", "cm-rp", "ga-x5c", "reset", "selection", "vendor", "cp-empty", "cm-empty", "lb-empty", "cp-token", "cp-token+key", "ga-authdata", "gna-authdata", "mc-authdata+x5c", "lb-config", "cm-count", "getinfo"];
+pub const FAMILIES: [&str; 24] = ["getinfo-algs", "seed:0", "seed:1", "seed:2", "seed:3", "seed:4", "seed:5", "seed:6", "cm-rp", "ga-x5c", "reset", "selection", "vendor", "cp-empty", "cm-empty", "lb-empty", "cp-token", "cp-token+key", "ga-authdata", "gna-authdata", "mc-authdata+x5c", "lb-config", "cm-count", "getinfo"];
 
 pub fn check(g: &Gen, n: usize, prefill: u8) -> Verdict {
     let r = build(g);
@@ -547,6 +559,16 @@ pub fn check(g: &Gen, n: usize, prefill: u8) -> Verdict {
     match ser_cap(n, &r, prefill) {
         Err(p) => Verdict::fail(format!("{}|{}|panic", P, g.family), "no panic", p),
         Ok(got) => {
+            // whatever the reference body is, a message that claims success must carry one complete,
+            // well-formed CBOR item after the status byte (never a cut-off body)
+            if got.len() > 1 && got[0] == 0x00 {
+                match crate::refcbor::parse(&got[1..]) {
+                    Ok(p) if p.used == got.len() - 1 => {}
+                    other => {
+                        return Verdict::fail(format!("{}|success-with-malformed-body", P), "00 followed by exactly one well-formed CBOR item", format!("{} ({:?})", hex(&got), other.map(|p| p.used).map_err(|e| format!("{:?}", e))));
+                    }
+                }
+            }
             if want.contains(&got) {
                 return Verdict::pass();
             }
@@ -649,7 +671,7 @@ pub fn run(ctx: &'static Ctx) {
         let mut sizes_hit = std::collections::BTreeSet::new();
         for (i, (g, size)) in sized.iter().enumerate() {
             let near = *size + 3 >= n && *size <= n + 2;
-            let fixed = g.family.starts_with("seed:") || matches!(g.family, "reset" | "selection" | "vendor" | "cp-empty" | "cm-empty" | "lb-empty" | "cm-count" | "getinfo") || (g.len == family_range(g.family).last().copied().unwrap_or(0));
+            let fixed = g.family.starts_with("seed:") || matches!(g.family, "getinfo-algs" | "reset" | "selection" | "vendor" | "cp-empty" | "cm-empty" | "lb-empty" | "cm-count" | "getinfo") || (g.len == family_range(g.family).last().copied().unwrap_or(0));
             if near || fixed {
                 if near {
                     sizes_hit.insert(*size);
